@@ -18,7 +18,7 @@ LEVEL_NOTE = ("Trusted: Lean kernel + 3 standard axioms; hand-written model Lex/
               "run; CPython re semantics. Token level (resync) and text level (lexer_boundary, resync_text), on the blocks "
               "handed to Library.add; key collisions between the parts are C09's business (generator keeps keys distinct).")
 TECHNIQUE = "Lean 4 proof: output monotonicity + reset-at-mark lemma + C02 scanner lemmas; differential correspondence on triples"
-RULE = ("size-scaled malformed middles (nesting 1500..6000 deep, closed and unclosed, in comments, strings, preambles and values; thousands of stray delimiters); triples (D1 from G ending in a complete block, X, D2 from G starting with '@type{' at a line start): X = every proper prefix of well-formed blocks (also with repeated field / block keys), every token "
+RULE = ("size-scaled malformed middles (nesting 1500..6000 deep, closed and unclosed, in comments, strings, preambles and values; thousands of stray delimiters); triples (D1 from G ending in a complete block, X, D2 from G starting with '@type{' at a line start): both clauses also on what parse_string returns (Library level with keys of failed / duplicate-field blocks reappearing in D2; default stack with @string names differing only in case); X = every proper prefix of well-formed blocks (also with repeated field / block keys), every token "
         "string of <= k tokens over { } \" , = NL \\ @a a SP (k=3 quick, 4 thorough) behind truncated-block prefixes, plus "
         "random truncations/corruptions of valid blocks. Compared: model vs real splitter on D1+X+D2 (complete blocks). "
         "Non-trivial = X non-empty and at least 2 blocks returned.")
